@@ -1,5 +1,5 @@
 """Writes harness job files, runs the native harness, returns trace files (ndjson)."""
-import os, json, subprocess, concurrent.futures as cf
+import os, re, json, subprocess, concurrent.futures as cf
 
 FLAG_BITS = {
     "P2SH": 1 << 0, "STRICTENC": 1 << 1, "DERSIG": 1 << 2, "LOW_S": 1 << 3, "NULLDUMMY": 1 << 4, "SIGPUSHONLY": 1 << 5,
@@ -60,22 +60,40 @@ class SessionJob:
 
 
 def run_harness(exe, job_lines_batches, outdir, prefix, parallel=16, timeout=1200, env=None):
-    """job_lines_batches: list of lists of protocol lines. Returns list of trace file paths (one per batch)."""
+    """job_lines_batches: list of lists of protocol lines. Returns list of (trace file, rc, stderr tail, ncrashes).
+    If the code under test crashes (signal, abort, uncaught exception) the harness records a Crashed event and exits 99;
+    the remaining jobs of the batch are then run in a fresh process."""
     os.makedirs(outdir, exist_ok=True)
     def one(i):
-        jf = os.path.join(outdir, "%s.%03d.jobs" % (prefix, i))
         tf = os.path.join(outdir, "%s.%03d.ndjson" % (prefix, i))
-        with open(jf, "w") as f:
-            f.write("\n".join(job_lines_batches[i]) + "\n")
-        with open(jf) as fin, open(tf, "w") as fout:
-            e = dict(os.environ)
-            e["ASAN_OPTIONS"] = "detect_leaks=0:abort_on_error=0:exitcode=66"
-            e["UBSAN_OPTIONS"] = "halt_on_error=1:exitcode=67:print_stacktrace=1"
-            if env:
-                e.update(env)
-            p = subprocess.run([exe], stdin=fin, stdout=fout, stderr=subprocess.PIPE, timeout=timeout, env=e)
-        os.remove(jf)
-        return tf, p.returncode, p.stderr.decode(errors="replace")[-3000:]
+        lines = job_lines_batches[i]
+        e = dict(os.environ)
+        e["ASAN_OPTIONS"] = "detect_leaks=0:abort_on_error=0:exitcode=66:handle_segv=0:handle_abort=0:handle_sigfpe=0"
+        e["UBSAN_OPTIONS"] = "halt_on_error=1:exitcode=67:print_stacktrace=1"
+        if env:
+            e.update(env)
+        start = 0; crashes = 0; rc = 0; err = ""
+        with open(tf, "wb") as fout:
+            while start < len(lines):
+                p = subprocess.run([exe], input=("\n".join(lines[start:]) + "\n").encode(), stdout=subprocess.PIPE,
+                                   stderr=subprocess.PIPE, timeout=timeout, env=e)
+                fout.write(p.stdout)
+                rc = p.returncode; err = p.stderr.decode(errors="replace")[-3000:]
+                if rc != 99:
+                    break
+                crashes += 1
+                m = re.search(r"CRASH line=(\d+)", err)
+                if not m or crashes > 200:
+                    rc = 98; break
+                at = start + int(m.group(1)) - 1          # index of the line being processed
+                # resume after the end of that job (its CLOSE), or at the next line for call lines
+                nxt = at + 1
+                if lines[at].startswith(("OPEN", "CMD", "RAW")):
+                    while nxt < len(lines) and not lines[nxt - 1].startswith("CLOSE"):
+                        nxt += 1
+                start = nxt
+                rc = 0
+        return tf, rc, err, crashes
     with cf.ThreadPoolExecutor(max_workers=parallel) as ex:
         return list(ex.map(one, range(len(job_lines_batches))))
 
